@@ -580,4 +580,35 @@ example :
     (history wCfg [.mempool [t1, t2], .reapPutFails, .reapPutFails, .reap, .reap, .produce, .produce]).map
       (fun r => (r.2.handed, chainTxs r.1.n.prod.store)) = some ([[t1, t2]], [t1, t2]) := by decide +kernel
 
+/-! ## 8. a stop request during the sequencer call
+
+`Op.produceCancelled aware` — the context of the production step is cancelled while `GetNextBatch` is running — is an
+operation of the histories: every theorem above quantifies over histories that contain it. -/
+
+/-- **A cancellation during a production step loses nothing**: in every reachable state, when the stop request arrives
+while the sequencer call is in flight and the sequencer has already released (and durably deleted) the batch `b`, every
+transaction of `b` is in the chain or in the block waiting at `height + 1` after the step — the step goes on to the early
+save whether or not the execution layer honours the cancelled context — so the ordinary stop and start that follows finds it. -/
+theorem C11_cancelled_step_loses_nothing (c : Cfg) (hc : CfgOK c) (ops : List Op) (σ : RunSt) (g : Ghost)
+    (h : history c ops = some (σ, g)) (aware : Bool) (σ' : RunSt) (hs : opStep c σ (.produceCancelled aware) = some σ')
+    (b : Queue.Batch) (rest : List FW) (htook : σ'.ws = FW.qdel b :: rest) :
+    ∀ t ∈ b, t ∈ chainTxs σ'.n.prod.store ++ pendingTxs σ'.n.prod.store := by
+  obtain ⟨σ0, g0, h0, hf⟩ := history_inv hc ops
+  rw [h] at h0
+  simp only [Option.some.injEq, Prod.mk.injEq] at h0
+  obtain ⟨rfl, rfl⟩ := h0
+  simp only [opStep, Option.some.injEq] at hs
+  subst hs
+  exact taken_batch_kept hc hf (cancelEx c σ.n aware) .real (by decide) htook
+
+/-- non-vacuity: the step is cancelled after the sequencer released `[t1, t2]`; ctx-oblivious execution: the block is
+committed; ctx-aware execution: the batch waits at `height + 1`; after the stop and start it is in the chain either way -/
+example :
+    (history wCfg [.mempool [t1, t2], .reap, .produce, .produceCancelled true]).map
+      (fun r => (chainTxs r.1.n.prod.store, pendingTxs r.1.n.prod.store)) = some ([], [t1, t2]) := by decide +kernel
+example :
+    chainOf wCfg [.mempool [t1, t2], .reap, .produce, .produceCancelled true, .restart, .produce] = some [t1, t2] ∧
+    chainOf wCfg [.mempool [t1, t2], .reap, .produce, .produceCancelled false, .restart, .produce] = some [t1, t2] := by
+  decide +kernel
+
 end Spec.C11
